@@ -125,6 +125,23 @@ pub fn for_each_inconsistent(addr: u16, typ: u8, data: &[u8], newline: bool, mut
         s[chk_pos..chk_pos + 2].copy_from_slice(&hexpair(chk));
         f("wrong-length", &s);
     }
+    // more than 255 data bytes on the wire with a length field that agrees modulo 256 (checksum consistent)
+    if data.len() <= 3 {
+        for extra in [256usize, 512] {
+            let mut long: Vec<u8> = data.to_vec();
+            long.extend((0..extra).map(|j| (j * 5 + 1) as u8));
+            let sum: u32 = true_len as u32 + (addr >> 8) as u32 + (addr & 0xFF) as u32 + typ as u32 + long.iter().map(|&b| b as u32).sum::<u32>();
+            let chk = ((256 - (sum % 256)) % 256) as u8;
+            let mut s = vec![b':'];
+            for b in [true_len, (addr >> 8) as u8, (addr & 0xFF) as u8, typ].iter().chain(long.iter()).chain([chk].iter()) {
+                s.extend_from_slice(&hexpair(*b));
+            }
+            if newline {
+                s.extend_from_slice(b"\r\n");
+            }
+            f("length-field-wraps", &s);
+        }
+    }
     let good_chk = ((256 - ((sum_rest + true_len as u32) % 256)) % 256) as u8;
     for c in 0..=255u8 {
         if c == good_chk {
